@@ -55,6 +55,10 @@ pub enum DeKind {
     Value,
     /// serde's own `de::value` string deserializers (Str, String, BorrowedStr, CowStr by index).
     SerdeStr(u8),
+    /// An own deserializer for a format that is **not self-describing** (bincode / postcard style): it
+    /// honours the hints `deserialize_str` / `deserialize_string` (delivering the string as transient,
+    /// borrowed or owned, by index) and refuses `deserialize_any` and every other hint.
+    HintOnly(u8),
     /// `Deserialize::deserialize_in_place` over an existing PURL that has qualifiers, a checksum and a
     /// subpath (directly, or as the one element of an existing `Vec`, whose in-place visitor reuses it).
     InPlace { vec: bool },
@@ -585,6 +589,71 @@ impl<'a> serde::Serializer for StringOnly<'a> {
     }
 }
 
+/// A deserializer for a non-self-describing format holding one string.
+struct HintOnly<'de> {
+    input: &'de str,
+    delivery: u8,
+}
+
+macro_rules! not_self_describing {
+    ($($name:ident)*) => {
+        $(fn $name<V: serde::de::Visitor<'de>>(self, _: V) -> Result<V::Value, ValueError> {
+            Err(serde::de::Error::custom(concat!("not self-describing: ", stringify!($name), " is not what the data holds")))
+        })*
+    };
+}
+
+impl<'de> serde::Deserializer<'de> for HintOnly<'de> {
+    type Error = ValueError;
+
+    not_self_describing! {
+        deserialize_any deserialize_bool deserialize_i8 deserialize_i16 deserialize_i32 deserialize_i64
+        deserialize_u8 deserialize_u16 deserialize_u32 deserialize_u64 deserialize_f32 deserialize_f64
+        deserialize_char deserialize_bytes deserialize_byte_buf deserialize_option deserialize_unit
+        deserialize_seq deserialize_map deserialize_identifier deserialize_ignored_any
+    }
+
+    fn deserialize_str<V: serde::de::Visitor<'de>>(self, visitor: V) -> Result<V::Value, ValueError> {
+        match self.delivery % 3 {
+            0 => visitor.visit_str(self.input),
+            1 => visitor.visit_borrowed_str(self.input),
+            _ => visitor.visit_string(self.input.to_owned()),
+        }
+    }
+
+    fn deserialize_string<V: serde::de::Visitor<'de>>(self, visitor: V) -> Result<V::Value, ValueError> {
+        self.deserialize_str(visitor)
+    }
+
+    fn deserialize_unit_struct<V: serde::de::Visitor<'de>>(self, _: &'static str, _: V) -> Result<V::Value, ValueError> {
+        Err(serde::de::Error::custom("not self-describing"))
+    }
+
+    fn deserialize_newtype_struct<V: serde::de::Visitor<'de>>(self, _: &'static str, _: V) -> Result<V::Value, ValueError> {
+        Err(serde::de::Error::custom("not self-describing"))
+    }
+
+    fn deserialize_tuple<V: serde::de::Visitor<'de>>(self, _: usize, _: V) -> Result<V::Value, ValueError> {
+        Err(serde::de::Error::custom("not self-describing"))
+    }
+
+    fn deserialize_tuple_struct<V: serde::de::Visitor<'de>>(self, _: &'static str, _: usize, _: V) -> Result<V::Value, ValueError> {
+        Err(serde::de::Error::custom("not self-describing"))
+    }
+
+    fn deserialize_struct<V: serde::de::Visitor<'de>>(self, _: &'static str, _: &'static [&'static str], _: V) -> Result<V::Value, ValueError> {
+        Err(serde::de::Error::custom("not self-describing"))
+    }
+
+    fn deserialize_enum<V: serde::de::Visitor<'de>>(self, _: &'static str, _: &'static [&'static str], _: V) -> Result<V::Value, ValueError> {
+        Err(serde::de::Error::custom("not self-describing"))
+    }
+
+    fn is_human_readable(&self) -> bool {
+        false
+    }
+}
+
 // ---------------------------------------------------------------------------------------------
 // Execution.
 
@@ -1109,7 +1178,7 @@ where
             }
             stats.bump("consumer_phases.reader");
         },
-        DeKind::Slice | DeKind::Str | DeKind::Value | DeKind::SerdeStr(_) | DeKind::InPlace { .. } => {
+        DeKind::Slice | DeKind::Str | DeKind::Value | DeKind::SerdeStr(_) | DeKind::InPlace { .. } | DeKind::HintOnly(_) => {
             let previous = guarded(|| GenericPurl::<T>::from_str("pkg:npm/prev@0?a=1&checksum=md5:00&z=9#s").ok())
                 .map_err(|p| violation!("C16.panic_in_parse", "parsing the previous value of the in-place lane panicked: {p}"))?;
             for (i, it) in items.iter().enumerate() {
@@ -1143,6 +1212,9 @@ where
                                 Err(e) => Err(e.to_string()),
                             }
                         },
+                    },
+                    (DeKind::HintOnly(n), Some(s)) => {
+                        GenericPurl::<T>::deserialize(HintOnly { input: s.as_str(), delivery: n }).map_err(|e| e.to_string())
                     },
                     (DeKind::SerdeStr(n), Some(s)) => match n % 4 {
                         0 => GenericPurl::<T>::deserialize(StrDeserializer::<ValueError>::new(s)).map_err(|e| e.to_string()),
@@ -1264,8 +1336,9 @@ impl Sim for C16 {
             9 => SerKind::ToValue,
             _ => SerKind::OwnFmt,
         };
-        let de = match rng.below(13) {
+        let de = match rng.below(14) {
             12 => DeKind::InPlace { vec: rng.chance(1, 2) },
+            13 => DeKind::HintOnly(rng.below(3) as u8),
             0..=3 => SerKindDe::stream(&mut rng),
             4 => DeKind::ReaderSingle { buf: *rng.pick(&[0usize, 0, 3, 64]) },
             5 | 6 => DeKind::Slice,
@@ -1309,7 +1382,7 @@ impl Sim for C16 {
         // The string-only lanes have no room for a wrapper.
         let wrap = match sc.de {
             _ if sc.ser == SerKind::OwnFmt => Wrap::Bare,
-            DeKind::SerdeStr(_) | DeKind::InPlace { vec: false } => Wrap::Bare,
+            DeKind::SerdeStr(_) | DeKind::HintOnly(_) | DeKind::InPlace { vec: false } => Wrap::Bare,
             DeKind::InPlace { vec: true } => Wrap::Seq,
             _ => sc.wrap,
         };
